@@ -12,11 +12,12 @@ class HarnessError(Exception):
 
 class Ob:
     """obligation: expr must be zero. scale: values whose magnitudes bound the size of the terms"""
-    __slots__ = ('name', 'expr', 'scale', 'rounds', 'conj', 'mults', 'rel')
+    __slots__ = ('name', 'expr', 'scale', 'rounds', 'conj', 'mults', 'rel', 'local')
 
-    def __init__(s, name, expr, scale=(), rounds=None, conj=None, mults=(), rel='eq'):
+    def __init__(s, name, expr, scale=(), rounds=None, conj=None, mults=(), rel='eq', local=False):
         s.name = name; s.expr = expr; s.scale = scale; s.rounds = rounds; s.conj = conj; s.mults = mults
         s.rel = rel        # 'eq': expr == 0 ; 'ge': expr >= 0
+        s.local = local    # concrete evaluation: judged against its own scale only (quantities that live far below 1, e.g. a nano-decade)
 
 
 KINDS = {
@@ -426,11 +427,11 @@ def concrete_residuals(obs, tol=1e-6):
             try: val = complex(v).real
             except TypeError: val = float(np.min(np.real(np.asarray(v, dtype=complex))))
             mag = max(0.0, -val) if val == val else float('nan')
-        rows.append((ob.name, mag, sc))
-        if sc == sc and sc != float('inf'): gmax = max(gmax, sc)
+        rows.append((ob.name, mag, sc, bool(getattr(ob, 'local', False))))
+        if sc == sc and sc != float('inf') and not getattr(ob, 'local', False): gmax = max(gmax, sc)
     bad = []
-    for name, mag, sc in rows:
-        if mag != mag or not (mag <= tol * sc or mag <= 1e-9 * max(gmax, 1.0)):
+    for name, mag, sc, local in rows:
+        if mag != mag or not (mag <= tol * sc or (not local and mag <= 1e-9 * max(gmax, 1.0))):
             bad.append((name, mag, sc))
     return bad
 
